@@ -34,6 +34,11 @@ GENS = [
     ("j2", "{ZS}", "{S10}", "<<JSmall, JSmall>>", 2, ("quick",)),
     ("j2full", "{Z1, ZS}", "{S10}", "<<JMsgs, JMsgs>>", 2, ("thorough",)),
     ("j3", "{ZS}", "{S10}", "<<JMsgs1, JRej \\cup JMsgs3, JMsgs1>>", 3, ("thorough",)),
+    # a zone-class update RR with RDLENGTH 0, then another message (the journal must stay loadable whatever the reply)
+    ("jempty", "{ZS}", "{S10}", "<<JEmpty, JMsgs3 \\cup JRej>>", 2, ("quick", "thorough")),
+    # long journals (more than 64 / 128 rows): padded zone, rows of kind add / delete / SOA / dump swept over row 65 (130)
+    ("jlong", "{ZPad(p) : p \\in {58, 59, 60, 62}}", "{S10}", "<<{JLong1}, {JLong2}, {JLong3}>>", 3, ("quick",)),
+    ("jlongfull", "{ZPad(p) : p \\in (53..64) \\cup (118..126)}", "{S10}", "<<{JLong1}, {JLong2}, {JLong3}>>", 3, ("thorough",)),
     # the serial wraps inside the history (2^32 - 3 at the start)
     ("jwrap", "{ZS}", "{<<65535, 65533>>}", "<<JMsgs3 \\cup JRej, JMsgs3 \\cup JSoa2, JMsgs3, JMsgs3>>", 4, ("quick", "thorough")),
 ]
@@ -69,7 +74,7 @@ def classify(d):
 
 
 def _mc(wd):
-    st = vlib.mc(os.path.join(vlib.SPEC, "MC_Journal.tla"), os.path.join(vlib.SPEC, "MC_Journal.cfg"), wd, workers=6,
+    st = vlib.mc(os.path.join(vlib.SPEC, "MC_Journal.tla"), os.path.join(vlib.SPEC, "MC_Journal.cfg"), wd, workers=4,
                  timeout=900, allow_zero=("DumpRow", "LogRow", "SoaRow"))
     asis = {}
     for cfg, what in AS_IS:
@@ -107,14 +112,16 @@ def run(res, tier, seed):
             defs = dict(EXTRA_DEFS)
             defs.update({"P_Zones": zones, "P_Sers": sers, "P_MsgsAt": msgsat, "P_SimPre": "{}", "P_SimUpd": "{}"})
             tla, cfg = vlib.wrapper(wd, "G_" + name, "Gen_Journal", defs, [ln.format(n=n) for ln in GEN_CFG])
-            cases, st = vlib.gen(tla, cfg, wd, workers=4, timeout=1500)
+            cases, st = vlib.gen(tla, cfg, wd, workers=1, timeout=1500)
             for i, c in enumerate(cases):
                 c["id"] = f"{name}-{i}"
+                if name.startswith("jlong"):
+                    c["cut_tail"] = 8      # stops from 8 rows before the end of the dump on (driver control, no oracle)
             if not cases:
                 raise vlib.ToolError(f"generator {name} produced no behaviours")
             vlib.log(f"[c14] generator {name}: {len(cases)} behaviours")
             return name, cases, st
-        with ThreadPoolExecutor(max_workers=3) as ex:
+        with ThreadPoolExecutor(max_workers=2) as ex:
             gens = [f.result() for f in [ex.submit(one, g) for g in todo]]
         traces, verdicts_all = [], []
         for name, cases, st in gens:
@@ -143,6 +150,21 @@ def run(res, tier, seed):
             rjobs.append((tpath, opath, ["record", "--trace", tpath, "--n", str(n_rand // procs), "--seed",
                                          str(seed * 1000 + 500 + k), "--max-msgs", str(max_msgs), "--work", work,
                                          "--crash", "--cont", "2"]))
+        # long journals: (a) large zones (padding records) with short histories, stops around and after the
+        # end of the dump; (b) long histories on small zones, stops everywhere
+        if tier == "thorough":
+            longs = [("pad", 24, ["--pad-min", "40", "--pad-max", "130", "--max-msgs", "10", "--cut-tail", "8"]),
+                     ("hist", 12, ["--min-msgs", "60", "--max-msgs", "90"])]
+        else:
+            longs = [("pad", 4, ["--pad-min", "52", "--pad-max", "64", "--max-msgs", "8", "--cut-tail", "8"]),
+                     ("hist", 2, ["--min-msgs", "45", "--max-msgs", "60"])]
+        for k, (lname, n, extra) in enumerate(longs):
+            tpath = os.path.join(wd, f"long.{lname}.trace.ndjson")
+            opath = os.path.join(wd, f"long.{lname}.out")
+            work = os.path.join(wd, "drv", f"long.{lname}")
+            os.makedirs(work, exist_ok=True)
+            rjobs.append((tpath, opath, ["record", "--trace", tpath, "--n", str(n), "--seed", str(seed * 1000 + 900 + k),
+                                         "--work", work, "--crash", "--cont", "1"] + extra))
         with ThreadPoolExecutor(max_workers=procs) as ex:
             for f in [ex.submit(vlib.run_driver, BINS[0], a, None, o, 3000) for (_t, o, a) in rjobs]:
                 f.result()
@@ -150,7 +172,7 @@ def run(res, tier, seed):
         st, asis = mcf.result()
         res.add_mc("MC_Journal", st)
         res.extra["as_is_models"] = asis
-    mism, tst, n_msgs, _notes = c12.monitor(res, wd, traces, shards=12 if tier == "thorough" else 8, spec="Trace_Journal")
+    mism, tst, n_msgs, _notes = c12.monitor(res, wd, traces, shards=6, spec="Trace_Journal")
     # ---- accounting
     n_cuts = 0
     for t in traces:
